@@ -21,6 +21,7 @@
 #include <etl/_type_traits/is_nothrow_move_constructible.hpp>
 #include <etl/_type_traits/is_nothrow_swappable.hpp>
 #include <etl/_type_traits/is_same.hpp>
+#include <etl/_type_traits/type_identity.hpp>
 #include <etl/_utility/forward.hpp>
 #include <etl/_utility/index_sequence.hpp>
 #include <etl/_utility/move.hpp>
@@ -32,7 +33,7 @@ namespace detail {
 
 template <etl::size_t I, typename T>
 struct tuple_leaf {
-    auto get_type(index_constant<I> ic) -> T;
+    auto get_type(index_constant<I> ic) -> type_identity<T>;
 
     template <typename... Args>
     constexpr tuple_leaf(Args&&... args)
@@ -183,7 +184,7 @@ public:
 template <etl::size_t I, typename... Ts>
 struct tuple_element<I, tuple<Ts...>> {
     static_assert(I < sizeof...(Ts));
-    using type = decltype(declval<typename tuple<Ts...>::impl_t>().get_type(etl::index_v<I>));
+    using type = typename decltype(declval<typename tuple<Ts...>::impl_t>().get_type(etl::index_v<I>))::type;
 };
 
 template <typename... Ts>
